@@ -2,39 +2,49 @@
 //
 // Explicit-state breadth-first search. A STATE is the canonical dump of the sandbox tree (sorted relative paths, kind,
 // content: the only thing the property can observe). From 6 seed trees every call of the alphabet (calls_test.go:
-// ~440 concrete calls = 24 operations x 8 colliding paths {a, a/, a/b, a/f.t, b, b/f.t, a/b/c, ""} x contents
+// 443 concrete calls = 24 operations x 8 colliding paths {a, a/, a/b, a/f.t, b, b/f.t, a/b/c, ""} x contents
 // {x, yy, ""}) is applied to every state, on
 //   - the in-memory backend  filesystem.NewVirtualFileSystem(vfsx.NewMem(afero.NewMemMapFs(), shared, 0), InMemoryFS, ..)
 //   - the OS backend         filesystem.NewVirtualFileSystem(vfsx.NewOS(filesystem.NewExtendedOsFs(), shared, 0), StandardFS, ..)
-//     in a sandbox under /dev/shm/verif-c06-*,
-//   - the reference model (model_test.go).
+//     in a sandbox under /dev/shm/verif-c06-* (discipline: backend_test.go),
+//   - the reference model (model_test.go: semantics, list of kind conflicts, list of cases the documentation is
+//     silent about, readings taken).
+//
 // Live file systems cannot be cloned: the state is MATERIALISED on an emptied sandbox before every call; in addition
 // every state's shortest call path is REPLAYED from its seed through the API on both backends and the dump compared
 // with the state (differential: "reached from the initial state" vs "built from elsewhere").
 //
-// Oracles per transition (see model_test.go for the readings taken):
-//   first sentence (calls free of kind conflicts, documentation not silent): ok/error and error kind = model, returned
-//   value = model, dump(mem) = dump(os) = model; where the documentation is silent: the two backends agree;
-//   second sentence (every call): the call terminates within 10^5 backend operations (a vfsx hook makes every further
-//   operation fail and finally ends the goroutine: no timer); the handle table of the vfsx layer is empty when the
-//   call returns - also when it failed and when its context was cancelled before the call or just before its j-th
-//   backend operation, j = 1..5; nothing outside the destination changed; every pre-existing entry of a copy's source
-//   is unchanged, also when source and destination overlap.
+// Oracles per transition:
+//
+//	first sentence (calls free of kind conflicts, documentation not silent): ok/error and error kind = model, returned
+//	value = model, dump(mem) = dump(os) = model; where the documentation is silent: the two backends agree;
+//	second sentence (every call): the process survives the call; the call terminates within 10^5 backend operations
+//	(a vfsx hook makes every further operation fail and finally ends the goroutine: no timer); the handle table of the
+//	vfsx layer is empty when the call returns - also when it failed and when its context was cancelled before the
+//	call or just before its j-th backend operation, j = 1..5; nothing outside the destination changed; every
+//	pre-existing entry of a copy's source is unchanged, also when source and destination overlap.
+//
 // The successors of a transition on which any oracle failed (or on which the backends left different trees) are not
 // expanded.
 //
+// Termination is decided in two stages to keep runaway calls affordable: every call first runs under a probe budget
+// of 5*10^3 backend operations (the largest terminating call on these trees needs a few hundred); a case that exceeds
+// it is PENDING; after each level the first pending case of every (call shape, backend) not yet decided is re-run under
+// the property's budget of 10^5 and evaluated in full, and its verdict is the verdict of every pending case of that
+// shape and backend (counted in pending_cases_decided_by_shape).
+//
 // A violation's signature = call shape (operation, shape of each argument relative to the tree, relation between the
-// arguments, see callShape) : backend (mem | os | both | mem≠os) : failed clause.
+// arguments: see callShape) : backend (mem | os | both | mem≠os) : failed clause.
 package c06
 
 import (
 	"encoding/json"
 	"fmt"
 	"os"
-	"path/filepath"
 	"sort"
 	"strings"
 	"testing"
+	"time"
 
 	ev "verif/engine/evidence"
 )
@@ -50,11 +60,10 @@ var seeds = []tree{
 	{"a": {Dir: true}, "a/f.t": {Content: "x"}, "b": {Content: "yy"}},
 }
 
-// bounds
 type bounds struct {
-	Depth          int `json:"bfs_depth"`            // states at this depth are evaluated with... see ExpandDepth
+	Depth          int `json:"bfs_depth"`            // states up to this depth are evaluated (every call applied)
 	CancelDepth    int `json:"cancel_series_depth"`  // the cancellation series is run on states of depth <= this
-	MaxEntries     int `json:"max_entries_expanded"` // states with more entries are not expanded further (not evaluated)
+	MaxEntries     int `json:"max_entries_expanded"` // larger states are discovered but not evaluated
 	MaxPathDepth   int `json:"max_path_depth_expanded"`
 	MaxStatesLevel int `json:"max_states_last_level"` // cap on the states evaluated at the last level (0 = none)
 }
@@ -77,13 +86,6 @@ type stateRec struct {
 	Depth int    `json:"depth"`
 }
 
-type job struct {
-	Run    string     `json:"run"`
-	Level  int        `json:"level"`
-	Cancel bool       `json:"cancel"`
-	States []stateRec `json:"states"`
-}
-
 type succ struct {
 	From int    `json:"f"`
 	Call int    `json:"c"`
@@ -91,46 +93,60 @@ type succ struct {
 }
 
 type violRec struct {
-	Sig    string `json:"sig"`
-	N      int64  `json:"n"`
-	Replay any    `json:"replay"`
-	From   int    `json:"from"`
-	Call   int    `json:"call"`
+	Sig    string         `json:"sig"`
+	N      int64          `json:"n"`
+	Replay map[string]any `json:"replay"`
+	From   int            `json:"from"`
+	Call   int            `json:"call"`
 }
 
+type pendingRec struct {
+	From     int    `json:"from"`
+	Call     int    `json:"call"`
+	Backend  string `json:"backend"`
+	CancelAt int    `json:"cancel_at"`
+	Class    string `json:"class"`
+}
+
+// shardOut is one output line of a worker: what the evaluation of one state (or one confirmation request) produced.
 type shardOut struct {
-	Succ          []succ           `json:"succ"`
-	Viol          []*violRec       `json:"viol"`
-	States        int64            `json:"states"`
-	Transitions   int64            `json:"transitions"`
-	ByClass       map[string]int64 `json:"by_class"`
-	CancelRuns    int64            `json:"cancel_runs"`
-	Validated     int64            `json:"validated"`
-	Outcomes      map[string]int64 `json:"outcomes"`
-	MaxOps        int64            `json:"max_ops"`
-	FullConfirm   int64            `json:"full_confirm"`
-	ProbeOnly     int64            `json:"probe_only"`
-	LongSkipped   int64            `json:"long_skipped"`
-	GuardedEmpty  int64            `json:"guarded_empty"`
-	BackendOps    int64            `json:"backend_ops"`
-	Disagreeing   int64            `json:"disagreeing"`
-	NoSuccTreeDif int64            `json:"no_succ_tree_diff"`
-	EngineErrors  []string         `json:"engine_errors"`
-	Samples       []any            `json:"samples"`
+	Item             int              `json:"item"`
+	Done             bool             `json:"done,omitempty"`
+	Succ             []succ           `json:"succ,omitempty"`
+	Viol             []*violRec       `json:"viol,omitempty"`
+	Pending          []pendingRec     `json:"pending,omitempty"`
+	States           int64            `json:"states,omitempty"`
+	Transitions      int64            `json:"transitions,omitempty"`
+	ByClass          map[string]int64 `json:"by_class,omitempty"`
+	CancelRuns       int64            `json:"cancel_runs,omitempty"`
+	Validated        int64            `json:"validated,omitempty"`
+	Outcomes         map[string]int64 `json:"outcomes,omitempty"`
+	MaxOps           int64            `json:"max_ops,omitempty"`
+	GuardedEmpty     int64            `json:"guarded_empty,omitempty"`
+	BackendOps       int64            `json:"backend_ops,omitempty"`
+	Disagreeing      int64            `json:"disagreeing,omitempty"`
+	NoSuccTreeDif    int64            `json:"no_succ_tree_diff,omitempty"`
+	HelperRuns       int64            `json:"helper_runs,omitempty"`
+	HelperDeaths     int64            `json:"helper_deaths,omitempty"`
+	RunawayFromProbe int64            `json:"runaway_from_probe,omitempty"`
+	EngineErrors     []string         `json:"engine_errors,omitempty"`
+	Samples          []any            `json:"samples,omitempty"`
+	// confirmation
+	ConfirmClause string         `json:"confirm_clause,omitempty"`
+	ConfirmDetail map[string]any `json:"confirm_detail,omitempty"`
 }
 
 // worker is the per-process evaluation context.
 type worker struct {
-	mem, osb *backend
-	out      *shardOut
-	viol     map[string]*violRec
-	memo     map[string]*classMemo
-	cancel   bool
-}
-
-type classMemo struct {
-	nonterm int
-	long    bool
+	mem, osb       *backend
+	out            *shardOut
+	viol           map[string]*violRec
+	cancel         bool
+	crashAt        map[[2]int]crashInfo
+	curItem        int
+	curCall        int
+	noteTransition func(item, call int)
+	helper         *helperProc
 }
 
 func newWorker(runDir string, shard int) (*worker, error) {
@@ -142,9 +158,27 @@ func newWorker(runDir string, shard int) (*worker, error) {
 	if err := os.Chdir(root); err != nil {
 		return nil, err
 	}
-	w := &worker{mem: newMemBackend(), osb: newOSBackend(root), viol: map[string]*violRec{}, memo: map[string]*classMemo{}}
-	w.out = &shardOut{ByClass: map[string]int64{}, Outcomes: map[string]int64{}}
+	w := &worker{mem: newMemBackend(), osb: newOSBackend(root), crashAt: map[[2]int]crashInfo{}}
+	w.mem.ctl.crashClasses = map[string]bool{}
+	w.noteTransition = func(item, call int) { w.curItem, w.curCall = item, call }
 	return w, nil
+}
+
+func (w *worker) begin(item int) {
+	w.out = &shardOut{Item: item, ByClass: map[string]int64{}, Outcomes: map[string]int64{}}
+	w.viol = map[string]*violRec{}
+}
+
+func (w *worker) end() *shardOut {
+	sigs := make([]string, 0, len(w.viol))
+	for s := range w.viol {
+		sigs = append(sigs, s)
+	}
+	sort.Strings(sigs)
+	for _, s := range sigs {
+		w.out.Viol = append(w.out.Viol, w.viol[s])
+	}
+	return w.out
 }
 
 func (w *worker) backends() []*backend { return []*backend{w.mem, w.osb} }
@@ -164,55 +198,70 @@ func (w *worker) violation(sig string, from, callIdx int, replay map[string]any)
 	v.N++
 }
 
-// runChecked executes the call on a freshly materialised state under the termination budget.
-// Two stages keep runaway calls affordable: the call first runs with probeBudget (5*10^3 operations; the largest
-// terminating call observed needs a few hundred); if that is exceeded the case is re-run under the property's budget of
-// 10^5 and that verdict is taken. Once two cases of the same call shape on the same backend were confirmed as
-// non-terminating under the full budget, later cases of that shape are reported from the probe alone (counted in
-// probe_only). A shape for which the full run terminated is always run in full.
-func (w *worker) runChecked(b *backend, t tree, c call, class string, cancelAt int) (r result, skipped bool) {
-	if err := b.materialise(t); err != nil {
-		w.engineError("materialise on %s: %v", b.name, err)
-		return result{}, true
-	}
-	r = b.run(c, probeBudget, cancelAt)
-	w.out.BackendOps += r.Ops
-	if !r.Exhausted && !r.Killed {
-		if r.Ops > w.out.MaxOps {
-			w.out.MaxOps = r.Ops
+// execOut is one execution: the result and the tree it left.
+type execOut struct {
+	R       result `json:"r"`
+	After   string `json:"after"`
+	Outside bool   `json:"outside,omitempty"`
+	Deep    bool   `json:"deep,omitempty"`
+	after   tree
+}
+
+// exec materialises the state, runs the call once under the given budget and reads the tree back.
+// In-memory backend: a call that is about to perform a Rename of a class that can end the process (riskyRenames) is
+// stopped before that Rename and executed instead, from scratch, in the worker's sacrificial helper process: if the
+// helper survives, its result and tree are taken; if it dies, the execution is "process-killed" (exactly, not predicted).
+func (w *worker) exec(b *backend, item int, t tree, ci int, budget int64, cancelAt int) (x execOut, ok bool) {
+	if b.name == "mem" {
+		if info, hit := w.crashAt[[2]int{item, ci}]; hit {
+			// this very execution killed a WORKER before (an operation class not known to be risky): not executed again
+			cl := info.OpClass
+			if cl == "" {
+				cl = "unknown-operation"
+			}
+			return execOut{R: result{Crashed: cl, Err: info.Stderr}}, true
 		}
-		return r, false
-	}
-	k := class + "|" + b.name
-	m := w.memo[k]
-	if m == nil {
-		m = &classMemo{}
-		w.memo[k] = m
-	}
-	if m.nonterm >= 2 && !m.long {
-		w.out.ProbeOnly++
-		return r, false
 	}
 	if err := b.materialise(t); err != nil {
 		w.engineError("materialise on %s: %v", b.name, err)
-		return result{}, true
+		return execOut{}, false
 	}
-	r = b.run(c, fullBudget, cancelAt)
+	r := b.run(allCalls[ci], budget, cancelAt)
 	w.out.BackendOps += r.Ops
-	w.out.FullConfirm++
-	if r.Exhausted || r.Killed {
-		m.nonterm++
-	} else {
-		m.long = true
-		if r.Ops > w.out.MaxOps {
-			w.out.MaxOps = r.Ops
+	if r.Crashed != "" {
+		w.out.HelperRuns++
+		attempts := 2
+		if r.Crashed == "Rename(old-inside-new)" {
+			attempts = riskyAttempts
 		}
+		hx, died, stderr, err := w.helperExec(t, ci, budget, cancelAt, attempts)
+		switch {
+		case err != nil:
+			w.engineError("helper: %v", err)
+			return execOut{}, false
+		case died:
+			w.out.HelperDeaths++
+			return execOut{R: result{Crashed: r.Crashed, Err: stderr, Ops: r.Ops}}, true
+		}
+		hx.after = parseKey(hx.After)
+		w.out.BackendOps += hx.R.Ops
+		return hx, true
 	}
-	return r, false
+	x.R = r
+	x.after, x.Outside, x.Deep = b.dump()
+	if !r.Exhausted && !r.Killed && r.Ops > w.out.MaxOps {
+		w.out.MaxOps = r.Ops
+	}
+	return x, true
 }
 
 func describeResult(r result) string {
-	if r.OK {
+	switch {
+	case r.Crashed != "":
+		return "crash"
+	case r.Exhausted || r.Killed:
+		return "budget"
+	case r.OK:
 		return "ok"
 	}
 	return "err:" + r.Kind
@@ -246,15 +295,19 @@ func pathsDiffClass(paths []string, before, after tree) string {
 func secondSentence(o outcome, c call, before tree, r result, after tree, outside, deep bool, suffix string) (string, map[string]any) {
 	emptyArg := c.A == "" || (c.isTwoArg() && c.B == "")
 	switch {
+	case r.Crashed != "":
+		return "process-killed" + suffix + "[" + r.Crashed + "]", map[string]any{"stderr_of_the_killed_worker": r.Err}
 	case r.Exhausted || r.Killed:
-		return "nonterm" + suffix, map[string]any{"ops": r.Ops, "killed": r.Killed}
+		return "nonterm" + suffix, map[string]any{"ops": r.Ops, "goroutine_ended_by_hook": r.Killed}
 	case (r.Escapes > 0 || outside) && !emptyArg:
 		return "escape" + suffix, map[string]any{"refused_ops": r.Escapes, "outside": outside}
 	case r.Handles > 0:
 		return "handles" + suffix, map[string]any{"open_handles": r.Handles}
 	}
 	if deep {
-		return "deep-tree" + suffix, nil
+		// the call did return, but only after descending more than 40 directory levels (into what it was creating) on
+		// a tree at most 5 levels deep: on the OS backend a runaway recursion ends with ENAMETOOLONG
+		return "runaway-recursion" + suffix, map[string]any{"ops": r.Ops, "result": describeResult(r)}
 	}
 	if l := sourceBroken(o, before, after); len(l) > 0 {
 		return "source-changed" + suffix + "[" + pathsDiffClass(l, before, after) + "]", map[string]any{"paths": l}
@@ -275,24 +328,37 @@ func firstSentence(o outcome, r result, after tree) (string, map[string]any) {
 	}
 	switch {
 	case o.ConsultResult && r.OK != o.OK:
-		return fmt.Sprintf("result(got=%s,want=%s)", describeResult(r), want), nil
+		got := "err"
+		if r.OK {
+			got = "ok"
+		}
+		return fmt.Sprintf("result(got=%s,want=%s)", got, want), map[string]any{"got": describeResult(r)}
 	case o.ConsultResult && !r.OK && o.ErrKind != "" && r.Kind != o.ErrKind:
 		return fmt.Sprintf("errkind(got=%s,want=%s)", r.Kind, o.ErrKind), nil
 	case o.ConsultVal && r.OK && o.OK && r.Val != o.Val:
 		return "value", map[string]any{"got": r.Val, "want": o.Val}
 	case o.ConsultTree && after.key() != o.Tree.key():
-		return "tree[" + diffClass(o.Tree, after) + "]", map[string]any{"want_tree": o.Tree.key()}
+		return "tree", map[string]any{"want_tree": o.Tree.key(), "difference": diffClass(o.Tree, after)}
 	}
 	return "", nil
 }
 
 func valueOp(c call) bool { return !c.mutating() }
 
+// cancelForm is the name a clause has in the cancellation series: "frame[kind]" -> "frame@cancel[kind]".
+func cancelForm(clause string) string {
+	if i := strings.IndexByte(clause, '['); i >= 0 {
+		return clause[:i] + "@cancel" + clause[i:]
+	}
+	return clause + "@cancel"
+}
+
 // evalTransition runs one call in one state on both backends and the model. It returns the successor key ("" = none).
 func (w *worker) evalTransition(st stateRec, from int, t tree, ci int, collect bool) string {
 	c := allCalls[ci]
 	o := model(c, t)
 	shape := callShape(c, t)
+	w.noteTransition(from, ci)
 	w.out.Transitions++
 	w.out.ByClass[o.Class]++
 	bs := w.backends()
@@ -300,29 +366,39 @@ func (w *worker) evalTransition(st stateRec, from int, t tree, ci int, collect b
 	var after [2]tree
 	var clause [2]string
 	var detail [2]map[string]any
-	skippedAny := false
+	var isPending, runaway [2]bool
 	emptyArg := c.A == "" || (c.isTwoArg() && c.B == "")
 	guardedEmpty := false
 	for i, b := range bs {
-		r, skipped := w.runChecked(b, t, c, shape, -1)
-		if skipped {
-			skippedAny = true
+		x, ok := w.exec(b, from, t, ci, probeBudget, -1)
+		if !ok {
+			return ""
+		}
+		r := x.R
+		res[i] = r
+		after[i] = x.after
+		w.out.Outcomes[c.Op+"|"+o.Class+"|"+b.name+"|"+describeResult(r)]++
+		if r.Crashed == "" && (r.Exhausted || r.Killed) {
+			runaway[i] = true
+			if b.name == "os" && (x.Deep || r.DeepHit) {
+				// stopped by the probe while operating more than 16 directory levels inside what it was creating. On
+				// the OS backend the full-budget run of such a case costs seconds (paths of thousands of components)
+				// and ends with ENAMETOOLONG, i.e. with this same verdict: it is given from the probe.
+				w.out.RunawayFromProbe++
+				clause[i], detail[i] = "runaway-recursion", map[string]any{"ops": r.Ops, "stopped_by": "probe budget"}
+				continue
+			}
+			isPending[i] = true
+			w.out.Pending = append(w.out.Pending, pendingRec{From: from, Call: ci, Backend: b.name, CancelAt: -1, Class: shape})
 			continue
 		}
-		res[i] = r
-		var outside, deep bool
-		after[i], outside, deep = b.dump()
 		if emptyArg && r.Escapes > 0 {
 			guardedEmpty = true
 		}
-		clause[i], detail[i] = secondSentence(o, c, t, r, after[i], outside, deep, "")
+		clause[i], detail[i] = secondSentence(o, c, t, r, after[i], x.Outside, x.Deep, "")
 		if clause[i] == "" {
 			clause[i], detail[i] = firstSentence(o, r, after[i])
 		}
-		w.out.Outcomes[c.Op+"|"+o.Class+"|"+b.name+"|"+describeResult(r)]++
-	}
-	if skippedAny {
-		return ""
 	}
 	if guardedEmpty {
 		w.out.GuardedEmpty++
@@ -335,7 +411,7 @@ func (w *worker) evalTransition(st stateRec, from int, t tree, ci int, collect b
 		}
 		return m
 	}
-	bad := false
+	bad := isPending[0] || isPending[1]
 	if clause[0] != "" && clause[0] == clause[1] {
 		w.violation(shape+":both:"+clause[0], from, ci, mkReplay(detail[0]))
 		bad = true
@@ -347,8 +423,8 @@ func (w *worker) evalTransition(st stateRec, from int, t tree, ci int, collect b
 			}
 		}
 	}
-	terminated := !(res[0].Exhausted || res[0].Killed || res[1].Exhausted || res[1].Killed)
-	treesEqual := after[0].key() == after[1].key()
+	terminated := !(runaway[0] || runaway[1] || res[0].Crashed != "" || res[1].Crashed != "")
+	treesEqual := terminated && after[0].key() == after[1].key()
 	// agreement of the two backends where the model does not already decide
 	if terminated && !bad && o.Class != "conflict" && !guardedEmpty {
 		var cross string
@@ -356,18 +432,18 @@ func (w *worker) evalTransition(st stateRec, from int, t tree, ci int, collect b
 		case o.Class == "model" && o.ConsultResult && o.ConsultTree && (o.ConsultVal || !valueOp(c)):
 			// everything observable was compared with the model, except the kind of an expected error
 			if !res[0].OK && !res[1].OK && res[0].Kind != res[1].Kind {
-				cross = fmt.Sprintf("errkind(mem=%s,os=%s)", res[0].Kind, res[1].Kind)
+				cross = "errkind"
 			}
 		default:
 			switch {
 			case res[0].OK != res[1].OK:
-				cross = fmt.Sprintf("result(mem=%s,os=%s)", describeResult(res[0]), describeResult(res[1]))
+				cross = "result"
 			case !res[0].OK && res[0].Kind != res[1].Kind:
-				cross = fmt.Sprintf("errkind(mem=%s,os=%s)", res[0].Kind, res[1].Kind)
+				cross = "errkind"
 			case res[0].OK && valueOp(c) && res[0].Val != res[1].Val:
 				cross = "value"
 			case !treesEqual:
-				cross = "tree[" + diffClass(after[1], after[0]) + "]"
+				cross = "tree"
 			}
 		}
 		if cross != "" {
@@ -378,7 +454,7 @@ func (w *worker) evalTransition(st stateRec, from int, t tree, ci int, collect b
 	if bad {
 		w.out.Disagreeing++
 	}
-	if collect && len(w.out.Samples) < 4 && (ci%37 == 5) && !bad {
+	if collect && len(w.out.Samples) < 2 && (ci%37 == 5) && !bad {
 		w.out.Samples = append(w.out.Samples, map[string]any{"state": st.Key, "call": c.String(), "shape": shape, "model_class": o.Class, "model_ok": o.OK,
 			"mem": describeResult(res[0]), "os": describeResult(res[1]), "value": res[0].Val, "tree_after": after[0].key()})
 	}
@@ -389,13 +465,18 @@ func (w *worker) evalTransition(st stateRec, from int, t tree, ci int, collect b
 				if int64(j) > res[i].Ops {
 					continue
 				}
-				r, skipped := w.runChecked(b, t, c, shape+"@cancel", j)
-				if skipped {
+				x, ok := w.exec(b, from, t, ci, probeBudget, j)
+				if !ok {
 					continue
 				}
+				r, aft, outside, deep := x.R, x.after, x.Outside, x.Deep
 				w.out.CancelRuns++
-				aft, outside, deep := b.dump()
-				if cl, det := secondSentence(o, c, t, r, aft, outside, deep, "@cancel"); cl != "" {
+				if r.Crashed == "" && (r.Exhausted || r.Killed) {
+					w.out.Pending = append(w.out.Pending, pendingRec{From: from, Call: ci, Backend: b.name, CancelAt: j, Class: shape + "@cancel"})
+					continue
+				}
+				if cl, det := secondSentence(o, c, t, r, aft, outside, deep, "@cancel"); cl != "" && cl != cancelForm(clause[i]) {
+					// (a clause that already failed without cancellation is not reported a second time)
 					if det == nil {
 						det = map[string]any{}
 					}
@@ -418,8 +499,41 @@ func (w *worker) evalTransition(st stateRec, from int, t tree, ci int, collect b
 	return after[0].key()
 }
 
+// confirmOne re-runs a pending case under the full budget and evaluates it completely on that backend.
+func (w *worker) confirmOne(item int, q confirmReq) {
+	t := parseKey(q.Key)
+	c := allCalls[q.Call]
+	o := model(c, t)
+	w.noteTransition(item, q.Call)
+	var b *backend
+	for _, x := range w.backends() {
+		if x.name == q.Backend {
+			b = x
+		}
+	}
+	x, ok := w.exec(b, item, t, q.Call, fullBudget, q.CancelAt)
+	if !ok {
+		return
+	}
+	r, aft, outside, deep := x.R, x.after, x.Outside, x.Deep
+	suffix := ""
+	if q.CancelAt >= 0 {
+		suffix = "@cancel"
+	}
+	cl, det := secondSentence(o, c, t, r, aft, outside, deep, suffix)
+	if cl == "" && q.CancelAt < 0 {
+		cl, det = firstSentence(o, r, aft)
+	}
+	if det == nil {
+		det = map[string]any{}
+	}
+	det["full_budget_result"] = r
+	w.out.ConfirmClause = cl
+	w.out.ConfirmDetail = det
+}
+
 // validate replays the shortest call path of a state from its seed through the API on both backends.
-func (w *worker) validate(st stateRec) bool {
+func (w *worker) validate(item int, st stateRec) bool {
 	for _, b := range w.backends() {
 		if err := b.materialise(seeds[st.Seed]); err != nil {
 			w.engineError("materialise seed: %v", err)
@@ -437,49 +551,21 @@ func (w *worker) validate(st stateRec) bool {
 	return true
 }
 
-func (w *worker) finish() shardOut {
-	sigs := make([]string, 0, len(w.viol))
-	for s := range w.viol {
-		sigs = append(sigs, s)
+func (w *worker) evalState(i int, st stateRec, onlyCall int) {
+	t := parseKey(st.Key)
+	w.out.States++
+	w.noteTransition(i, -1)
+	if w.validate(i, st) {
+		w.out.Validated++
 	}
-	sort.Strings(sigs)
-	for _, s := range sigs {
-		w.out.Viol = append(w.out.Viol, w.viol[s])
-	}
-	return *w.out
-}
-
-func workLevel(shard, n int) shardOut {
-	var j job
-	b, err := os.ReadFile(os.Getenv("C06_JOB"))
-	if err == nil {
-		err = json.Unmarshal(b, &j)
-	}
-	if err != nil {
-		return shardOut{EngineErrors: []string{"worker cannot read its job: " + fmt.Sprint(err)}}
-	}
-	w, err := newWorker(j.Run, shard)
-	if err != nil {
-		return shardOut{EngineErrors: []string{"worker cannot create its sandbox: " + err.Error()}}
-	}
-	w.cancel = j.Cancel
-	for i, st := range j.States {
-		if i%n != shard {
+	for ci := range allCalls {
+		if onlyCall >= 0 && ci != onlyCall {
 			continue
 		}
-		t := parseKey(st.Key)
-		w.out.States++
-		if w.validate(st) {
-			w.out.Validated++
-		}
-		for ci := range allCalls {
-			if k := w.evalTransition(st, i, t, ci, i%7 == 0); k != "" && k != st.Key {
-				w.out.Succ = append(w.out.Succ, succ{From: i, Call: ci, Key: k})
-			}
+		if k := w.evalTransition(st, i, t, ci, i%5 == 0); k != "" && k != st.Key {
+			w.out.Succ = append(w.out.Succ, succ{From: i, Call: ci, Key: k})
 		}
 	}
-	_ = w.osb.wipe()
-	return w.finish()
 }
 
 func expandable(t tree, b bounds) bool {
@@ -494,9 +580,179 @@ func expandable(t tree, b bounds) bool {
 	return true
 }
 
+// search is the parent's bookkeeping.
+type search struct {
+	rep          *ev.Reporter
+	runDir       string
+	n            int
+	total        shardOut
+	viols        map[string]*violRec
+	crashClasses map[string]bool
+	crashesSeen  int
+	crashLog     []any
+	confirmed    map[string]string         // class|backend -> clause ("" = the full-budget run raised nothing)
+	confirmedDet map[string]map[string]any // detail of that run
+	confirmRuns  int
+	pendingCases int64
+	pendingClean int64
+}
+
+func (s *search) addViol(sig string, n int64, replay map[string]any) {
+	if have, ok := s.viols[sig]; ok {
+		have.N += n // the earliest case keeps the replay: breadth-first, so it is a shortest one
+		return
+	}
+	s.viols[sig] = &violRec{Sig: sig, N: n, Replay: replay}
+}
+
+func (s *search) crashList() []string {
+	var l []string
+	for c := range s.crashClasses {
+		l = append(l, c)
+	}
+	sort.Strings(l)
+	return l
+}
+
+// runLevel evaluates the frontier and decides pending cases; it returns the successors sorted by (state, call).
+func (s *search) runLevel(id string, frontier []stateRec, cancel bool, onlyCall int) (all []succ, transitions int64) {
+	jb := &job{ID: id, Run: s.runDir, Mode: "level", Cancel: cancel, OnlyCall: onlyCall, States: frontier, CrashClasses: s.crashList()}
+	lines, crashes, errs := runPool(jb, s.n)
+	for _, e := range errs {
+		s.rep.EngineError("%s", e)
+	}
+	s.crashesSeen += len(crashes)
+	for _, c := range crashes {
+		if c.OpClass != "" {
+			s.crashClasses[c.OpClass] = true
+		}
+		if len(s.crashLog) < 20 && c.Item >= 0 && c.Item < len(frontier) && c.Call >= 0 {
+			s.crashLog = append(s.crashLog, map[string]any{"state": frontier[c.Item].Key, "call": allCalls[c.Call].String(), "op_class": c.OpClass, "stderr": c.Stderr})
+		}
+	}
+	sort.Slice(lines, func(i, j int) bool { return lines[i].Item < lines[j].Item })
+	var pend []pendingRec
+	for _, o := range lines {
+		if o.Done {
+			continue
+		}
+		all = append(all, o.Succ...)
+		pend = append(pend, o.Pending...)
+		s.total.States += o.States
+		s.total.Transitions += o.Transitions
+		transitions += o.Transitions
+		s.total.CancelRuns += o.CancelRuns
+		s.total.Validated += o.Validated
+		s.total.GuardedEmpty += o.GuardedEmpty
+		s.total.BackendOps += o.BackendOps
+		s.total.Disagreeing += o.Disagreeing
+		s.total.NoSuccTreeDif += o.NoSuccTreeDif
+		s.total.HelperRuns += o.HelperRuns
+		s.total.HelperDeaths += o.HelperDeaths
+		s.total.RunawayFromProbe += o.RunawayFromProbe
+		s.total.HelperRuns += o.HelperRuns
+		s.total.HelperDeaths += o.HelperDeaths
+		if o.MaxOps > s.total.MaxOps {
+			s.total.MaxOps = o.MaxOps
+		}
+		for k, v := range o.ByClass {
+			s.total.ByClass[k] += v
+		}
+		for k, v := range o.Outcomes {
+			s.total.Outcomes[k] += v
+		}
+		for _, e := range o.EngineErrors {
+			s.rep.EngineError("%s", e)
+		}
+		for _, v := range o.Viol {
+			s.addViol(v.Sig, v.N, v.Replay)
+		}
+		if len(s.total.Samples) < 8 {
+			s.total.Samples = append(s.total.Samples, o.Samples...)
+		}
+	}
+	// decide the pending cases: one full-budget run per undecided (shape, backend)
+	sort.SliceStable(pend, func(i, j int) bool {
+		if pend[i].From != pend[j].From {
+			return pend[i].From < pend[j].From
+		}
+		return pend[i].Call < pend[j].Call
+	})
+	var reqs []confirmReq
+	seen := map[string]bool{}
+	for _, p := range pend {
+		k := p.Class + "|" + p.Backend
+		if _, ok := s.confirmed[k]; ok || seen[k] {
+			continue
+		}
+		seen[k] = true
+		reqs = append(reqs, confirmReq{Key: frontier[p.From].Key, Call: p.Call, Backend: p.Backend, CancelAt: p.CancelAt, Class: p.Class})
+	}
+	if len(reqs) > 0 {
+		cj := &job{ID: id + "c", Run: s.runDir, Mode: "confirm", Confirm: reqs, CrashClasses: s.crashList()}
+		clines, ccrashes, cerrs := runPool(cj, s.n)
+		for _, e := range cerrs {
+			s.rep.EngineError("%s", e)
+		}
+		s.crashesSeen += len(ccrashes)
+		got := map[int]shardOut{}
+		for _, l := range clines {
+			if !l.Done {
+				got[l.Item] = l
+				s.total.BackendOps += l.BackendOps
+				for _, e := range l.EngineErrors {
+					s.rep.EngineError("%s", e)
+				}
+			}
+		}
+		for i, q := range reqs {
+			l, ok := got[i]
+			if !ok {
+				s.rep.EngineError("no verdict for the pending case %v", q)
+				continue
+			}
+			s.confirmRuns++
+			s.confirmed[q.Class+"|"+q.Backend] = l.ConfirmClause
+			s.confirmedDet[q.Class+"|"+q.Backend] = l.ConfirmDetail
+		}
+	}
+	for _, p := range pend {
+		s.pendingCases++
+		k := p.Class + "|" + p.Backend
+		cl, ok := s.confirmed[k]
+		if !ok {
+			continue
+		}
+		if cl == "" {
+			s.pendingClean++
+			continue
+		}
+		st := frontier[p.From]
+		shape := strings.TrimSuffix(p.Class, "@cancel")
+		rp := map[string]any{"seed": st.Seed, "path": st.Path, "state": st.Key, "call": allCalls[p.Call], "call_text": allCalls[p.Call].String(), "backend": p.Backend,
+			"note":                              "this case exceeded the probe budget of 5000 backend operations; the verdict is that of the full-budget (10^5) run of the first such case of this shape on this backend",
+			"full_budget_run_of_the_first_case": s.confirmedDet[k]}
+		if p.CancelAt >= 0 {
+			rp["cancel_before_backend_op"] = p.CancelAt
+		}
+		s.addViol(shape+":"+p.Backend+":"+cl, 1, rp)
+	}
+	sort.Slice(all, func(i, j int) bool {
+		if all[i].From != all[j].From {
+			return all[i].From < all[j].From
+		}
+		return all[i].Call < all[j].Call
+	})
+	return all, transitions
+}
+
 func TestC06(t *testing.T) {
-	if _, _, isShard := ev.ShardEnv(); isShard {
-		ev.Sharded(t, 0, workLevel)
+	if os.Getenv("C06_HELPER") != "" {
+		helperMain()
+		return
+	}
+	if os.Getenv("C06_WORKER") != "" {
+		workerMain()
 		return
 	}
 	rep := ev.NewReporter("C06", "model_checking")
@@ -508,172 +764,100 @@ func TestC06(t *testing.T) {
 	}
 	mustBeSandbox(runDir + "/w0/r")
 	defer os.RemoveAll(runDir)
+	s := &search{rep: rep, runDir: runDir, n: ev.Workers(), viols: map[string]*violRec{}, crashClasses: map[string]bool{},
+		confirmed: map[string]string{}, confirmedDet: map[string]map[string]any{}}
+	s.total = shardOut{ByClass: map[string]int64{}, Outcomes: map[string]int64{}}
 	if p := os.Getenv("VERIF_REPLAY"); p != "" {
-		replayCase(rep, runDir, p)
+		replayCase(s, p)
 		rep.Finish()
 		return
 	}
 	bd := tierBounds()
-	nWorkers := ev.Workers()
 
 	visited := map[string]bool{}
 	var frontier []stateRec
-	for i, s := range seeds {
-		k := s.key()
+	for i, sd := range seeds {
+		k := sd.key()
 		if !visited[k] {
 			visited[k] = true
 			frontier = append(frontier, stateRec{Key: k, Seed: i, Depth: 0})
 		}
 	}
-	total := shardOut{ByClass: map[string]int64{}, Outcomes: map[string]int64{}}
 	var perLevel []map[string]any
-	viols := map[string]*violRec{}
 	capped, notExpanded := false, int64(0)
-	frontierClosed := false
-	for level := 0; level <= bd.Depth; level++ {
-		if len(frontier) == 0 {
-			frontierClosed = true
-			break
-		}
+	for level := 0; level <= bd.Depth && len(frontier) > 0; level++ {
 		if level == bd.Depth && bd.MaxStatesLevel > 0 && len(frontier) > bd.MaxStatesLevel {
 			frontier = frontier[:bd.MaxStatesLevel]
 			capped = true
 		}
-		jb := job{Run: runDir, Level: level, Cancel: level <= bd.CancelDepth, States: frontier}
-		jf := filepath.Join(runDir, fmt.Sprintf("job-%d.json", level))
-		data, _ := json.Marshal(jb)
-		if err := os.WriteFile(jf, data, 0o644); err != nil {
-			rep.EngineError("cannot write job: %v", err)
-			break
-		}
-		os.Setenv("C06_JOB", jf)
-		outs, isWorker := ev.Sharded(t, nWorkers, workLevel)
-		if isWorker {
-			return
-		}
-		var all []succ
-		levelViols := map[string]*violRec{}
-		lv := map[string]any{"level": level, "states": len(frontier)}
-		var ltrans int64
-		for _, o := range outs {
-			all = append(all, o.Succ...)
-			total.States += o.States
-			total.Transitions += o.Transitions
-			ltrans += o.Transitions
-			total.CancelRuns += o.CancelRuns
-			total.Validated += o.Validated
-			total.FullConfirm += o.FullConfirm
-			total.ProbeOnly += o.ProbeOnly
-			total.LongSkipped += o.LongSkipped
-			total.GuardedEmpty += o.GuardedEmpty
-			total.BackendOps += o.BackendOps
-			total.Disagreeing += o.Disagreeing
-			total.NoSuccTreeDif += o.NoSuccTreeDif
-			if o.MaxOps > total.MaxOps {
-				total.MaxOps = o.MaxOps
-			}
-			for k, v := range o.ByClass {
-				total.ByClass[k] += v
-			}
-			for k, v := range o.Outcomes {
-				total.Outcomes[k] += v
-			}
-			for _, e := range o.EngineErrors {
-				rep.EngineError("%s", e)
-			}
-			for _, v := range o.Viol {
-				if have, ok := levelViols[v.Sig]; ok {
-					n := have.N + v.N
-					if v.From < have.From || (v.From == have.From && v.Call < have.Call) {
-						levelViols[v.Sig] = v
-					}
-					levelViols[v.Sig].N = n
-				} else {
-					levelViols[v.Sig] = v
-				}
-			}
-			if len(total.Samples) < 8 {
-				total.Samples = append(total.Samples, o.Samples...)
-			}
-		}
-		lv["transitions"] = ltrans
-		for sig, v := range levelViols {
-			if have, ok := viols[sig]; ok {
-				have.N += v.N // the earliest level keeps the replay: breadth-first, so it is a shortest one
-			} else {
-				viols[sig] = v
-			}
-		}
-		sort.Slice(all, func(i, j int) bool {
-			if all[i].From != all[j].From {
-				return all[i].From < all[j].From
-			}
-			return all[i].Call < all[j].Call
-		})
+		t0 := time.Now()
+		all, ltrans := s.runLevel(fmt.Sprintf("L%d", level), frontier, level <= bd.CancelDepth, -1)
+		lv := map[string]any{"level": level, "states": len(frontier), "transitions": ltrans, "wall_s": time.Since(t0).Seconds()}
 		var next []stateRec
-		for _, s := range all {
-			if visited[s.Key] {
+		for _, sc := range all {
+			if visited[sc.Key] {
 				continue
 			}
-			visited[s.Key] = true
-			if !expandable(parseKey(s.Key), bd) {
+			visited[sc.Key] = true
+			if !expandable(parseKey(sc.Key), bd) {
 				notExpanded++
 				continue
 			}
-			p := frontier[s.From]
-			path := append(append([]call(nil), p.Path...), allCalls[s.Call])
-			next = append(next, stateRec{Key: s.Key, Seed: p.Seed, Path: path, Depth: level + 1})
+			p := frontier[sc.From]
+			path := append(append([]call(nil), p.Path...), allCalls[sc.Call])
+			next = append(next, stateRec{Key: sc.Key, Seed: p.Seed, Path: path, Depth: level + 1})
 		}
 		lv["new_states"] = len(next)
 		perLevel = append(perLevel, lv)
 		frontier = next
 	}
-	if len(frontier) == 0 {
-		frontierClosed = true
-	}
-	// violations were counted per level in the workers; viols holds the earliest case of each signature
-	sigs := make([]string, 0, len(viols))
-	for s := range viols {
-		sigs = append(sigs, s)
+	frontierClosed := len(frontier) == 0
+	sigs := make([]string, 0, len(s.viols))
+	for sg := range s.viols {
+		sigs = append(sigs, sg)
 	}
 	sort.Strings(sigs)
-	for _, s := range sigs {
-		rep.ViolationN(s, viols[s].Replay, viols[s].N)
+	for _, sg := range sigs {
+		rep.ViolationN(sg, s.viols[sg].Replay, s.viols[sg].N)
 	}
+	total := s.total
 	if len(total.Samples) > 8 {
 		total.Samples = total.Samples[:8]
 	}
 	if total.States == 0 {
 		rep.EngineError("no state was evaluated")
 	}
-	outcomes := make([]string, 0, len(total.Outcomes))
-	for k := range total.Outcomes {
-		outcomes = append(outcomes, k)
-	}
-	sort.Strings(outcomes)
 	rep.Coverage["states"] = total.States
 	rep.Coverage["states_discovered"] = len(visited)
 	rep.Coverage["states_left_unexpanded_at_the_depth_bound"] = len(frontier)
-	rep.Coverage["states_not_expanded_size_cap"] = notExpanded
+	rep.Coverage["states_not_evaluated_size_cap"] = notExpanded
 	rep.Coverage["transitions"] = total.Transitions
 	rep.Coverage["traces_validated_against_impl"] = total.Validated * 2
 	rep.Coverage["traces_validated_explanation"] = "every evaluated state's shortest call path was replayed from its seed through the API on both backends and reproduced the state's dump (states x 2 backends); every transition itself is executed by the implementation on both backends"
 	rep.Coverage["transitions_by_model_class"] = total.ByClass
 	rep.Coverage["disagreeing_transitions_not_expanded"] = total.Disagreeing
-	rep.Coverage["transitions_backends_left_different_trees_on_conflict_calls_not_expanded"] = total.NoSuccTreeDif
+	rep.Coverage["conflict_transitions_with_different_trees_on_the_backends_not_expanded"] = total.NoSuccTreeDif
 	rep.Coverage["cancellation_runs"] = total.CancelRuns
 	rep.Coverage["backend_operations_executed"] = total.BackendOps
-	rep.Coverage["max_backend_ops_of_a_terminating_call"] = total.MaxOps
-	rep.Coverage["budget_full_confirmations"] = total.FullConfirm
-	rep.Coverage["budget_probe_only_verdicts"] = total.ProbeOnly
+	rep.Coverage["max_backend_ops_of_a_call_within_the_probe_budget"] = total.MaxOps
+	rep.Coverage["pending_cases_over_probe_budget"] = s.pendingCases
+	rep.Coverage["pending_full_budget_runs"] = s.confirmRuns
+	rep.Coverage["pending_cases_decided_by_shape"] = s.pendingCases - int64(s.confirmRuns)
+	rep.Coverage["pending_cases_whose_shape_passed_the_full_run"] = s.pendingClean
+	rep.Coverage["os_runaway_verdicts_given_from_the_probe_run"] = total.RunawayFromProbe
+	rep.Coverage["worker_processes_killed_by_the_code_under_test"] = s.crashesSeen
+	rep.Coverage["crash_classes"] = s.crashList()
+	rep.Coverage["observed_crashes"] = s.crashLog
+	rep.Coverage["executions_moved_to_the_sacrificial_helper_process"] = total.HelperRuns
+	rep.Coverage["helper_processes_killed_by_the_code_under_test"] = total.HelperDeaths
 	rep.Coverage["empty_path_calls_stopped_by_the_sandbox_guard_not_compared"] = total.GuardedEmpty
 	rep.Coverage["per_level"] = perLevel
 	rep.Coverage["bound"] = bd
 	rep.Coverage["alphabet_calls"] = len(allCalls)
 	rep.Coverage["alphabet_paths"] = relPaths
 	rep.Coverage["seeds"] = len(seeds)
-	rep.Coverage["workers"] = nWorkers
-	rep.Coverage["distinct_observed_outcomes"] = len(outcomes)
+	rep.Coverage["workers"] = s.n
+	rep.Coverage["distinct_observed_outcomes"] = len(total.Outcomes)
 	rep.Coverage["observed_outcomes"] = total.Outcomes
 	rep.Coverage["distinct_violation_signatures"] = len(sigs)
 	rep.Coverage["exhaustive"] = frontierClosed && !capped && notExpanded == 0
@@ -687,8 +871,10 @@ func TestC06(t *testing.T) {
 	rep.Finish()
 }
 
-// replayCase re-runs one stored case: the state is rebuilt by replaying the path from the seed through the API.
-func replayCase(rep *ev.Reporter, runDir, path string) {
+// replayCase re-runs one stored case in a worker process (the case may kill it): the state is rebuilt by replaying the
+// path from the seed through the API (validation), then the call is evaluated with every oracle.
+func replayCase(s *search, path string) {
+	rep := s.rep
 	b, err := os.ReadFile(path)
 	if err != nil {
 		rep.EngineError("cannot read replay: %v", err)
@@ -707,17 +893,6 @@ func replayCase(rep *ev.Reporter, runDir, path string) {
 		rep.EngineError("replay does not parse: %v", err)
 		return
 	}
-	w, err := newWorker(runDir, 0)
-	if err != nil {
-		rep.EngineError("sandbox: %v", err)
-		return
-	}
-	w.cancel = true
-	st := stateRec{Key: f.Replay.State, Seed: f.Replay.Seed, Path: f.Replay.Path, Depth: len(f.Replay.Path)}
-	if !w.validate(st) {
-		fmt.Printf("NOTE: the stored state is not reproduced by its path on the current tree (an earlier step behaves differently now); evaluating the call on the materialised state\n")
-		w.out.EngineErrors = nil
-	}
 	ci := -1
 	for i, c := range allCalls {
 		if c == f.Replay.Call {
@@ -728,16 +903,26 @@ func replayCase(rep *ev.Reporter, runDir, path string) {
 		rep.EngineError("the replayed call %v is not in the alphabet", f.Replay.Call)
 		return
 	}
-	w.evalTransition(st, 0, parseKey(st.Key), ci, false)
-	out := w.finish()
+	st := stateRec{Key: f.Replay.State, Seed: f.Replay.Seed, Path: f.Replay.Path, Depth: len(f.Replay.Path)}
+	s.n = 1
+	s.runLevel("replay", []stateRec{st}, true, ci)
 	fmt.Printf("REPLAY state=%q call=%s stored-signature=%s\n", st.Key, allCalls[ci], f.Signature)
-	for _, v := range out.Viol {
-		fmt.Printf("REPLAY-VIOLATION signature=%s\n", v.Sig)
-		rep.ViolationN(v.Sig, v.Replay, v.N)
+	sigs := make([]string, 0, len(s.viols))
+	for sg := range s.viols {
+		sigs = append(sigs, sg)
 	}
+	sort.Strings(sigs)
+	reproduced := false
+	for _, sg := range sigs {
+		fmt.Printf("REPLAY-VIOLATION signature=%s\n", sg)
+		rep.ViolationN(sg, s.viols[sg].Replay, s.viols[sg].N)
+		if sg == f.Signature {
+			reproduced = true
+		}
+	}
+	fmt.Printf("REPLAY stored signature reproduced: %v\n", reproduced)
 	rep.Coverage["states"] = 1
-	rep.Coverage["transitions"] = out.Transitions
-	rep.Coverage["traces_validated_against_impl"] = 1
-	rep.Coverage["samples"] = []any{map[string]any{"replayed": path}}
-	_ = w.osb.wipe()
+	rep.Coverage["transitions"] = s.total.Transitions
+	rep.Coverage["traces_validated_against_impl"] = s.total.Validated * 2
+	rep.Coverage["samples"] = []any{map[string]any{"replayed": path, "reproduced": reproduced}}
 }
